@@ -233,25 +233,23 @@ def markerOf (g : Store) (v : Option Val) : Option Int :=
     | some (.atom (.int m)) => some m
     | _ => none
 
-/-- `PDFPage.__init__` as a function of the four inheritable entries of the page dictionary. -/
+/-- `PDFPage.__init__` as a function of the four entries it reads. The defaulting structure of
+`_parse_mediabox` / `_parse_cropbox` (`parse_mediabox`, `parse_cropbox`: which default on a missing
+value and on `PDFValueError`) is regenerated from the source; `parseBox` stands for the parse
+expression `_normalize_rect(parse_rect(resolve1(val) for val in list_value(value)))` inside them. -/
 def mkPage (g : Store) (id : Option Nat) (res mb cb rot : Option Val) : Page :=
-  let mbox : Rect :=
-    match mb with
-    | none => US_LETTER
-    | some v => (parseBox g v).getD US_LETTER
-  let cbox : Rect :=
-    match cb with
-    | none => mbox
-    | some v => (parseBox g v).getD mbox
+  let mbox : Rect := parse_mediabox mb.isNone (mb.bind (parseBox g))
+  let cbox : Rect := parse_cropbox cb.isNone (cb.bind (parseBox g)) mbox
   let r := match rot with
     | none => ROTATE_DEFAULT
     | some v => intValue g v
   ⟨id, norm_rotate r, mbox, cbox, markerOf g res⟩
 
-/-- Constructing a page raises nothing in the model's value space. -/
+/-- `cls(document, objid, tree, label)`: the entries `__init__` reads (their names regenerated from
+the source: `KEY_…`). Constructing a page raises nothing in the model's value space. -/
 def pageOfRaw (g : Store) (p : RawPage) : Except Err Page :=
-  .ok (mkPage g p.id (dget p.attrs "Resources") (dget p.attrs "MediaBox") (dget p.attrs "CropBox")
-    (dget p.attrs "Rotate"))
+  .ok (mkPage g p.id (dget p.attrs KEY_RESOURCES) (dget p.attrs KEY_MEDIABOX) (dget p.attrs KEY_CROPBOX)
+    (dget p.attrs KEY_ROTATE))
 
 /-- Construct the pages one after the other; the first exception ends the iteration. -/
 def finish {α : Type} (mk : α → Except Err Page) : List α → Option Err → List Page × Option Err
